@@ -99,6 +99,11 @@ func genC03(r *gen.Rng, tier string, emit func(string)) {
 				j--
 				continue
 			}
+			if len(f) > 16 && r.Intn(100) < 15 {
+				// a foreign encoder's negative response that still carries a body: command_length governs
+				f = append([]byte{}, f...)
+				putBE32(f[8:12], uint32(r.Pick(1, 0x45, 0xFF, 0x400)))
+			}
 			all = append(all, f...)
 			ends = append(ends, len(all))
 		}
@@ -147,6 +152,10 @@ func genC03(r *gen.Rng, tier string, emit func(string)) {
 		for len(all) < 60 {
 			f, _ := validFrame(r, gen.Representable)
 			if len(f) < 120 {
+				if len(f) > 16 && r.Intn(100) < 25 {
+					f = append([]byte{}, f...)
+					putBE32(f[8:12], 0x45)
+				}
 				all = append(all, f...)
 			}
 		}
@@ -371,6 +380,13 @@ func genC13(r *gen.Rng, tier string, emit func(string)) {
 				}
 			}
 			emit("det " + pduLine(p))
+			// constructed values no decoder would return: user data header and UDH indicator out of step,
+			// reserved data_coding, unsorted everything — marshalled repeatedly they must still give the same octets
+			q := r.PDU(randType(r), gen.Unconstrained)
+			line := pduLine(q) // before Marshal's Prepare touches the value
+			if _, cls, _, _ := doMarshal(q); cls == "nil" && len(line) < 20000 {
+				emit("det " + line)
+			}
 		}
 	}
 }
